@@ -66,7 +66,7 @@ func checkC11(c *Ctx) {
 		for _, pk := range c06Pointers(exitResult(e, 0)) {
 			n++
 			ptV := fieldVal(r.Ex, e.St, pk, prog, models.SececPkg, "PublicKey", "point")
-			pbV := fieldVal(r.Ex, e.St, pk, prog, models.SececPkg, "PublicKey", "pointBytes")
+			pbV := bytesField(r.Ex, e.St, pk, prog, models.SececPkg, "PublicKey", "pointBytes")
 			wantEnc := absint.CatBytes(sym.ConstStr(sym.Bytes, "\x04"), models.ToBytes(sym.Fp, models.XCoord(Q)), models.ToBytes(sym.Fp, models.YCoord(Q)))
 			e := e
 			o, d := CheckUnder(fAnd(FGuard(e.Guard), acc), []absint.Val{ptV, pbV}, nil, func(asg map[*sym.Term]bool) string {
